@@ -359,6 +359,7 @@ def _parked(ctx, **params):
 
 
 HARNESSES = {
+    "buffered-flow": Harness("buffered-flow", lambda ctx, **kw: __import__("harness.c13_channel", fromlist=["h_buffered_flow"]).h_buffered_flow(ctx, **kw), lambda tier: [{"n1": a, "n2": b, "established": e} for a in (0, 3) for b in (1, 2) for e in (True, False)], style="STEP", bounds="two sends (bytes 0 or 3, str 1..2 code points < U+0800, i.e. also characters of two UTF-8 bytes), established or not, then drain: bufferedAmount equals the queued bytes and returns to 0", encoded=["aiortc.rtcsctptransport:RTCSctpTransport._data_channel_send", "aiortc.rtcsctptransport:RTCSctpTransport._data_channel_flush", "aiortc.rtcdatachannel:RTCDataChannel._addBufferedAmount"], twin="flow-done"),
     "buffered-amount": Harness("buffered-amount", lambda ctx, **kw: __import__("harness.c13_channel", fromlist=["h_buffered"]).h_buffered(ctx, **kw), lambda tier: [{}], style="STEP", bounds="one _addBufferedAmount step from a symbolic amount / threshold, with an application handler that reads bufferedAmount and sends from inside bufferedamountlow: the accounting that must return to 0 at quiescence stays exact", encoded=["aiortc.rtcdatachannel:RTCDataChannel._addBufferedAmount"], twin="added", opts={"samples": 1}),
     "parked-flush": Harness("parked-flush", _parked, lambda tier: [{"q": 0, "parked": True}, {"q": 1, "parked": True}], style="STEP", bounds="a reliable channel's message parked in the channel queue while only a FORWARD-TSN (and 0..1 chunks) is outstanding; one SACK with symbolic cumulative point: at quiescence nothing may stay parked", encoded=["aiortc.rtcsctptransport:RTCSctpTransport._receive_sack_chunk", "aiortc.rtcsctptransport:RTCSctpTransport._data_channel_flush"], twin="sack-over-forward-tsn-processed", opts={"samples": 1}),
     "recv-delivery": Harness(
